@@ -47,8 +47,10 @@ Base == [query |-> "Query", mutation |-> "", subscription |-> "",
     [k |-> "enum", name |-> "E2", values |-> << [name |-> "P", dep |-> "EMPTY", py |-> "pp"], [name |-> "Q", dep |-> "", py |-> "pq"] >>],
     \* internal values "1" / "2" are realised as the Python ints 1 / 2 (a numeric internal value is not the GraphQL literal)
     [k |-> "enum", name |-> "E3", values |-> << [name |-> "M", dep |-> "", py |-> "1"], [name |-> "N", dep |-> "", py |-> "2"] >>],
+    \* an enum whose ONLY input position is the argument of an executable directive (clients write its values in operations)
+    [k |-> "enum", name |-> "E4", values |-> << [name |-> "K", dep |-> "", py |-> "pk"], [name |-> "L", dep |-> "", py |-> "pl"] >>],
     [k |-> "input", name |-> "In", fields |-> << Arg("f", Named("Int")), ArgD("g", NN(Named("Int")), [k |-> "int", v |-> "1"]), ArgD("dflt", Named("Int"), [k |-> "int", v |-> "5"]) >>] >>,
-  directives |-> << [name |-> "tag", locs |-> <<"FIELD", "QUERY">>, args |-> <<Arg("n", Named("Int"))>>] >>]
+  directives |-> << [name |-> "tag", locs |-> <<"FIELD", "QUERY">>, args |-> <<Arg("n", Named("Int")), Arg("lvl", Named("E4"))>>] >>]
 
 \* wrapper variants of a named type up to depth 2
 Variants(n) == {Named(n), NN(Named(n)), ListOf(Named(n)), ListOf(NN(Named(n))), NN(ListOf(Named(n))), NN(ListOf(NN(Named(n))))}
@@ -121,6 +123,8 @@ Edits(s) ==
     [kind |-> "remove-input", el |-> "f", owner |-> "In", new |-> WithType(s, TIdx(s, "In"), [s.types[TIdx(s, "In")] EXCEPT !.fields = Tail(@)]),
      expect |-> {"InputFieldRemoved"}, silentOk |-> FALSE, breaking |-> TRUE],
     [kind |-> "remove-enum-value", el |-> "Y", owner |-> "E", new |-> WithType(s, TIdx(s, "E"), [s.types[TIdx(s, "E")] EXCEPT !.values = Front(@)]),
+     expect |-> {"EnumValueRemoved"}, silentOk |-> FALSE, breaking |-> TRUE],
+    [kind |-> "remove-enum-value-used-by-a-directive-only", el |-> "L", owner |-> "E4", new |-> WithType(s, TIdx(s, "E4"), [s.types[TIdx(s, "E4")] EXCEPT !.values = Front(@)]),
      expect |-> {"EnumValueRemoved"}, silentOk |-> FALSE, breaking |-> TRUE],
     [kind |-> "add-enum-value", el |-> "Z", owner |-> "E", new |-> WithType(s, TIdx(s, "E"), [s.types[TIdx(s, "E")] EXCEPT !.values = Append(@, [name |-> "Z", dep |-> "", py |-> "pz"])]),
      expect |-> {"EnumValueAdded"}, silentOk |-> FALSE, breaking |-> FALSE],
